@@ -96,6 +96,86 @@ theorem extend_monotone (base : Config) (ks ms : Option (List Str)) (name : Str)
   · left; cases ks <;> simp_all
   · right; cases ms <;> simp_all [List.any_append]
 
+/-! ### histories of `configure` / `extend` calls -/
+
+private theorem apply_keeps_key (cur : Config) (c : CfgCall) (x : Str) (h : x ∈ cur.keys) (hn : c.resetsKeys = false) :
+    x ∈ (c.apply cur).keys := by
+  cases c with
+  | configure r ks ms => cases ks <;> simp_all [CfgCall.apply, Config.fromConfig, CfgCall.resetsKeys]
+  | extend ks ms => cases ks <;> simp_all [CfgCall.apply, Config.extend]
+
+private theorem apply_keeps_marker (cur : Config) (c : CfgCall) (x : Str) (h : x ∈ cur.markers) (hn : c.resetsMarkers = false) :
+    x ∈ (c.apply cur).markers := by
+  cases c with
+  | configure r ks ms => cases ms <;> simp_all [CfgCall.apply, Config.fromConfig, CfgCall.resetsMarkers]
+  | extend ks ms => cases ms <;> simp_all [CfgCall.apply, Config.extend]
+
+private theorem run_keeps_key (post : List CfgCall) (cur : Config) (x : Str) (h : x ∈ cur.keys)
+    (hn : ∀ c ∈ post, c.resetsKeys = false) : x ∈ (runCalls cur post).keys := by
+  induction post generalizing cur with
+  | nil => exact h
+  | cons c rest ih =>
+    exact ih (c.apply cur) (apply_keeps_key cur c x h (hn c (by simp))) (fun d hd => hn d (by simp [hd]))
+
+private theorem run_keeps_marker (post : List CfgCall) (cur : Config) (x : Str) (h : x ∈ cur.markers)
+    (hn : ∀ c ∈ post, c.resetsMarkers = false) : x ∈ (runCalls cur post).markers := by
+  induction post generalizing cur with
+  | nil => exact h
+  | cons c rest ih =>
+    exact ih (c.apply cur) (apply_keeps_marker cur c x h (hn c (by simp))) (fun d hd => hn d (by simp [hd]))
+
+/-- **A name registered once stays protected**: in every history of `configure` / `extend` calls, a name registered by
+    some call as an exact key is redacted (in any spelling) under the final configuration, unless a *later* `configure`
+    call gives a new key list.  In particular a later `configure(replacement=…)` or `configure(sensitive_markers=…)`
+    does not un-protect it. -/
+theorem registered_key_stays_protected (init : Config) (pre post : List CfgCall) (c : CfgCall) (k name : Str)
+    (hreg : c.registersKey k) (hlater : ∀ d ∈ post, d.resetsKeys = false) (hname : lower name = lower k) :
+    isSensitive (runCalls init (pre ++ c :: post)) name = true := by
+  have hsplit : runCalls init (pre ++ c :: post) = runCalls (c.apply (runCalls init pre)) post := by
+    simp [runCalls, List.foldl_append]
+  have hin : lower k ∈ (c.apply (runCalls init pre)).keys := by
+    cases c with
+    | configure r ks ms =>
+      cases ks with
+      | none => exact absurd hreg (by simp [CfgCall.registersKey])
+      | some l => simpa [CfgCall.apply, Config.fromConfig] using ⟨k, hreg, rfl⟩
+    | extend ks ms =>
+      cases ks with
+      | none => exact absurd hreg (by simp [CfgCall.registersKey])
+      | some l => simp only [CfgCall.apply, Config.extend, List.mem_append, List.mem_map]; exact Or.inr ⟨k, hreg, rfl⟩
+  have := run_keeps_key post _ _ hin hlater
+  rw [hsplit]
+  unfold isSensitive
+  rw [hname]
+  simp [List.contains_iff_mem, this]
+
+/-- the same for markers: a registered marker keeps redacting every name that contains it -/
+theorem registered_marker_stays_protected (init : Config) (pre post : List CfgCall) (c : CfgCall) (m name : Str)
+    (hreg : c.registersMarker m) (hlater : ∀ d ∈ post, d.resetsMarkers = false) (hname : lower m <:+: lower name) :
+    isSensitive (runCalls init (pre ++ c :: post)) name = true := by
+  have hsplit : runCalls init (pre ++ c :: post) = runCalls (c.apply (runCalls init pre)) post := by
+    simp [runCalls, List.foldl_append]
+  have hin : lower m ∈ (c.apply (runCalls init pre)).markers := by
+    cases c with
+    | configure r ks ms =>
+      cases ms with
+      | none => exact absurd hreg (by simp [CfgCall.registersMarker])
+      | some l => simpa [CfgCall.apply, Config.fromConfig] using ⟨m, hreg, rfl⟩
+    | extend ks ms =>
+      cases ms with
+      | none => exact absurd hreg (by simp [CfgCall.registersMarker])
+      | some l => simp only [CfgCall.apply, Config.extend, List.mem_append, List.mem_map]; exact Or.inr ⟨m, hreg, rfl⟩
+  have hfin := run_keeps_marker post _ _ hin hlater
+  rw [hsplit, isSensitive_iff]
+  exact Or.inr ⟨lower m, hfin, hname⟩
+
+/-- `configure` restarted from a pristine configuration drops what was registered before: `extend(keys=[X-Tenant])`
+    followed by `configure(replacement="#")` leaves `x-tenant` unprotected (and it is protected in the tree's reading). -/
+theorem configure_from_pristine_full_false :
+    let h := [CfgCall.extend (some ["X-Tenant".toList]) none, CfgCall.configure (some "#".toList) none none]
+    isSensitive (runCallsFromPristine defaultConfig h) "x-tenant".toList = false ∧
+    isSensitive (runCalls defaultConfig h) "x-tenant".toList = true := by decide
+
 example : isSensitive defaultConfig "X-Tenant".toList = false ∧
     isSensitive (defaultConfig.extend (some ["X-TENANT".toList]) none) "x-tenant".toList = true := by decide
 
